@@ -17,6 +17,13 @@ extern "C" double ceil(double);
 // goto-cc 6.11's C++ parser does not know the `override` specifier (it only asks the compiler to check that a base declaration
 // exists; g++ checks that in the native replay build): defined away for the verifier
 #define override
+// ... and its code for a destructor of a class derived from one with a VIRTUAL destructor calls the base destructor through the
+// vtable slot that it has just pointed at itself (endless recursion in symex): the stub base classes get non-virtual destructors
+// for the verifier; nothing here deletes through a base pointer
+#define EQ_VIRTUAL_DTOR
+#endif
+#ifdef CV_NATIVE
+#define EQ_VIRTUAL_DTOR virtual
 #endif
 
 // ---- bounds of the model (set by the driver: -DEQ_M=<operations>) ----------------------------------------------------------
@@ -65,7 +72,7 @@ max(A const & lhs, A const & rhs)
     void *operator new(size_t byteCount) { \
         assert(byteCount == sizeof(class CLASS)); \
         ++eq_allocs; \
-        return malloc(byteCount); \
+        return malloc(sizeof(class CLASS)); /* constant size: a typed object for the verifier */ \
     } \
     void operator delete(void *address) { \
         if (address) { \
@@ -119,7 +126,7 @@ public:
         EVENT_IDLE = -1,
         EVENT_ERROR = -2
     };
-    virtual ~AsyncEngine() {}
+    EQ_VIRTUAL_DTOR ~AsyncEngine() {}
     virtual int checkEvents(int timeout) = 0;
 };
 class Packable;
@@ -130,7 +137,7 @@ class CallDialer
 {
 public:
     CallDialer() {}
-    virtual ~CallDialer() {}
+    EQ_VIRTUAL_DTOR ~CallDialer() {}
     virtual void print(std::ostream &os) const = 0;
 };
 
